@@ -93,3 +93,67 @@ V_ENSURES(V_IMP(g_exact, g.regexec_calls == g_r0) && V_IMP(!g_exact && g_match_a
 V_ENSURES(V_IMP(!g_exact && g_tab->len > 0, (g.mit_freed - g_fr0) + (g_free_calls - g_fc0) == 1) && V_IMP(g_exact || g_tab->len == 0, g.mit_freed == g_fr0 && g_free_calls == g_fc0))  /*@C04.scan-iterator-released-exactly-once*/
 ;
 #endif
+
+#ifdef V_SUBSCRIBE_UNIT
+/* m_mod_ps_subscribe(): the module's subscription table is keyed by the topic string OF THE SUBSCRIPTION STORED there (the caller's string, or the subscription's own
+ * duplicate with M_SRC_DUP).  Ghost view of the one table entry for this topic: g_entry (is there one), g.map_key (the key pointer the table keeps for it),
+ * g.freed_topic (a duplicated topic that a subscription destructor has released). */
+V_CONTRACT int v_regcomp(regex_t *preg, const char *regex, int cflags) V_REQUIRES(preg != NULL && regex != NULL) V_ASSIGNS(g.regcomp_calls) V_ENSURES(V_RET == g_regcomp_ret && g.regcomp_calls == V_OLD(g.regcomp_calls) + 1);
+V_CONTRACT m_map_t *m_map_new(m_map_flags flags, m_map_dtor fn) V_REQUIRES(flags == M_MAP_VAL_ALLOW_UPDATE) V_ASSIGNS(g.mapnew_calls) V_ENSURES(__CPROVER_is_fresh(V_RET, sizeof(struct _map)) && g.mapnew_calls == V_OLD(g.mapnew_calls) + 1);
+V_CONTRACT
+void *m_map_get(const m_map_t *m, const char *key)
+V_REQUIRES(m == (const m_map_t *)g_tab && key == g_topic)
+V_ASSIGNS()
+V_ENSURES(g_entry ? __CPROVER_pointer_equals(V_RET, g_oldsub) : V_RET == NULL)
+;
+/* removing the entry runs the subscription destructor on the stored value: a duplicated topic is released with it */
+V_CONTRACT
+int m_map_remove(m_map_t *m, const char *key)
+V_REQUIRES(m == (m_map_t *)g_tab && key != NULL)
+V_ASSIGNS(g.maprm_calls, g_entry, g.subsdtor_calls, g.freed_topic, g.map_key)
+V_ENSURES(g.maprm_calls == V_OLD(g.maprm_calls) + 1 && !g_entry && V_RET == (V_OLD(g_entry) ? 0 : -ENOENT)
+          && V_IMP(V_OLD(g_entry), g.subsdtor_calls == V_OLD(g.subsdtor_calls) + 1 && g.map_key == NULL && g.freed_topic == ((g_oldsub->flags & M_SRC_DUP) ? g_oldsub->ps_src.topic : V_OLD(g.freed_topic)))
+          && V_IMP(!V_OLD(g_entry), g.subsdtor_calls == V_OLD(g.subsdtor_calls) && g.freed_topic == V_OLD(g.freed_topic) && g.map_key == V_OLD(g.map_key)))
+;
+V_CONTRACT
+void *m_mem_new(size_t size, m_ref_dtor dtor)
+V_REQUIRES(size == sizeof(ev_src_t))
+V_ASSIGNS(g.memnew_calls)
+V_ENSURES(__CPROVER_is_fresh(V_RET, sizeof(ev_src_t)) && g.memnew_calls == V_OLD(g.memnew_calls) + 1)
+;
+V_CONTRACT char *mem_strdup(const char *s) V_REQUIRES(s != NULL) V_ASSIGNS(g.strdup_calls) V_ENSURES(g.strdup_calls == V_OLD(g.strdup_calls) + 1 && __CPROVER_is_fresh(V_RET, 2));
+/* m_map_put on a table made with M_MAP_VAL_ALLOW_UPDATE (contract proved for the real map in units m.put*: C05.put-adds-new-key / update keeps the STORED key and
+ * destroys the old value): a new key is stored as given; an update keeps the key pointer the table already has and runs the destructor on the value it replaces */
+V_CONTRACT
+int m_map_put(m_map_t *m, const char *key, void *value)
+V_REQUIRES(m != NULL && key != NULL && value != NULL && key == ((ev_src_t *)value)->ps_src.topic)
+V_ASSIGNS(g.mapput_calls, g.mapput_val, g_entry, g.map_key, g.subsdtor_calls, g.freed_topic)
+V_ENSURES(V_RET == 0 && g.mapput_calls == V_OLD(g.mapput_calls) + 1 && __CPROVER_pointer_equals(g.mapput_val, value) && g_entry
+          && (V_OLD(g_entry) ? (g.map_key == V_OLD(g.map_key) && g.subsdtor_calls == V_OLD(g.subsdtor_calls) + 1
+                                && g.freed_topic == ((g_oldsub->flags & M_SRC_DUP) ? g_oldsub->ps_src.topic : V_OLD(g.freed_topic)))
+                             : (g.map_key == key && g.subsdtor_calls == V_OLD(g.subsdtor_calls) && g.freed_topic == V_OLD(g.freed_topic))))
+;
+#define V_SUB_OK   (V_G_MOD(mod) && !(g_mod->flags & M_MOD_DENY_SUB) && topic != NULL && (V_PRIO(flags) == 0 || V_PRIO_ONE(flags)) && V_OLD(g_mod->tb.tokens) > 0)
+#define V_PRIO(f)       ((f) & (M_SRC_PRIO_MASK))
+#define V_PRIO_ONE(f)   (V_PRIO(f) == M_SRC_PRIO_LOW || V_PRIO(f) == M_SRC_PRIO_NORM || V_PRIO(f) == M_SRC_PRIO_HIGH)
+V_CONTRACT
+int m_mod_ps_subscribe(m_mod_t *mod, const char *topic, m_src_flags flags, const void *userptr)
+V_REQUIRES(v_base_ok() && mod == g_mod && V_RW_OK(g_mod, sizeof(m_mod_t)) && v_state_valid(g_mod->state) && g_mod->ctx == g_ctx && (topic == NULL || topic == g_topic))
+V_REQUIRES((g_mod->subscriptions == NULL && !g_entry) || (g_mod->subscriptions == (m_map_t *)g_tab && V_RW_OK(g_tab, sizeof(struct _map))))
+V_REQUIRES(!g_entry || (g_oldsub != NULL && V_RW_OK(g_oldsub, sizeof(ev_src_t)) && g_oldsub->ps_src.topic != NULL && g.map_key == (const void *)g_oldsub->ps_src.topic))
+V_REQUIRES(g.freed_topic == NULL && g.mapput_calls == 0 && g.memnew_calls == 0)
+V_ASSIGNS(V_G_MOD(mod): g_mod->tb.tokens, g_mod->stats.last_seen, g_mod->stats.action_ctr, g.fetch_calls, g.regcomp_calls, g.mapnew_calls, g_mod->subscriptions, g.memnew_calls, g.strdup_calls,
+          g.mapput_calls, g.mapput_val, g_entry, g.map_key, g.subsdtor_calls, g.freed_topic, g.maprm_calls; g_entry: g_oldsub->userptr)
+/* a repeated subscription with the same flags is updated in place: only the user pointer changes, nothing is created or destroyed */
+V_ENSURES(V_IMP(V_SUB_OK && g_regcomp_ret == 0 && V_OLD(g_entry) && g_oldsub->flags == flags, V_RET == 0 && g_oldsub->userptr == userptr && g.memnew_calls == 0 && g.mapput_calls == 0
+                && g.subsdtor_calls == V_OLD(g.subsdtor_calls) && g_entry))                                                                   /*@C09.repeated-subscription-updated-in-place*/
+/* a new topic, or a repeated subscription with other flags: exactly one subscription object is stored for the topic, carrying flags (with exactly one priority) and user pointer */
+V_ENSURES(V_IMP(V_SUB_OK && g_regcomp_ret == 0 && !(V_OLD(g_entry) && g_oldsub->flags == flags), V_RET == 0 && g.memnew_calls == 1 && g.mapput_calls == 1 && g_entry
+                && ((ev_src_t *)g.mapput_val)->userptr == userptr && ((ev_src_t *)g.mapput_val)->mod == g_mod && ((ev_src_t *)g.mapput_val)->type == M_SRC_TYPE_PS
+                && V_PRIO_ONE(((ev_src_t *)g.mapput_val)->flags) && g.subsdtor_calls == V_OLD(g.subsdtor_calls) + (V_OLD(g_entry) ? 1 : 0)))               /*@C09.one-subscription-per-topic-replaced-when-flags-differ*/
+/* the key the table keeps for the entry stays valid memory: it is never the duplicated topic of a subscription that was destroyed on the way */
+V_ENSURES(V_IMP(V_SUB_OK && g_regcomp_ret == 0 && g_entry, g.map_key != NULL && (g.freed_topic == NULL || g.map_key != (const void *)g.freed_topic)))       /*@C04.subscription-table-key-is-not-released-memory*/
+V_ENSURES(V_IMP(V_G_MOD(mod) && !(g_mod->flags & M_MOD_DENY_SUB) && topic != NULL && (V_PRIO(flags) == 0 || V_PRIO_ONE(flags)) && V_OLD(g_mod->tb.tokens) > 0 && g_regcomp_ret != 0,
+                V_RET == g_regcomp_ret && g.memnew_calls == 0 && g.mapput_calls == 0))                                                         /*@C09.invalid-pattern-leaves-no-trace*/
+;
+#endif
